@@ -65,7 +65,7 @@ pub fn main(args: &[String]) -> i32 {
         };
         writeln!(out, "{}", json!({"event":"Reset","id":v["id"]})).unwrap();
         let a0 = id(format!("AST:{}", ast_key(&pl0)));
-        writeln!(out, "{}", json!({"event":"Apply","f":"parse","dst":"ast","id":a0})).unwrap();
+        writeln!(out, "{}", json!({"event":"Apply","f":"parse","dst":"ast","id":a0,"ok":true})).unwrap();
         let t1 = api::guarded(|| prqlc::pl_to_prql(&pl0));
         let t1k = outcome_key(&t1, |s| s.clone());
         let t1ok = matches!(t1, api::Outcome::Ok(_));
